@@ -504,9 +504,9 @@ PROPS = {
     },
     "C01": {
         "lean_modules": ["Dbg.Props.C01"],
-        "theorems": ["Compress.C01_steps_recorded", "Compress.C01_from_reads", "Compress.C01_partition", "Compress.C01_node_assembly", "Compress.C01_nodes_are_id_paths", "Compress.C01_ids_partition",
+        "theorems": ["Compress.C01_steps_recorded", "Compress.C01_from_reads", "Compress.C01_no_exts", "Compress.C01_partition", "Compress.C01_node_assembly", "Compress.C01_nodes_are_id_paths", "Compress.C01_ids_partition",
                      "Compress.C01_walk_no_panic", "Compress.compress_components_concrete", "Walk.compress_components"],
-        "partial": ["the from-slice / no-exts wrappers are tied by correspondence only (they build the table and call the function modelled here)"],
+        "partial": ["the no-exts entry point is proved at table level (C01_no_exts: the discovered extension table is well-formed and reciprocal, so C01 applies); the from-slice wrapper and the glue that builds the hash map are tied by correspondence only"],
         "n_quick": 3000, "n_thorough": 200000,
         "nontrivial": _c01_nontrivial, "tags": _c01_tags, "shrink": _table_shrink,
         "rule": _C01_RULE,
@@ -528,8 +528,8 @@ PROPS = {
     },
     "C03": {
         "lean_modules": ["Dbg.Props.C03"],
-        "theorems": ["Graph.C03_ginv_of_compress", "Graph.C03_edges_symmetric_from_reads", "Graph.C03_edges_symmetric", "Graph.C03_ginv_decidable", "Graph.C03_prune_exact", "Graph.C03_valid_exts_exact", "Graph.C03_edges_justified", "Graph.C03_walk_sequence", "Graph.C03_maxPath_walk", "Graph.C03_maxPath_sequence", "Graph.edge_overlap", "Graph.findLink_sound", "Graph.searchKmer_sound", "Graph.searchKmer_complete", "Graph.findLink_exts_irrelevant"],
-        "partial": ["adjacency set = (K+1)-mers of the reads (edges_eq_observed) is an executable predicate on pipeline graphs; GInv is proved for the output of compress_kmers (C03_ginv_of_compress) but not yet for graphs after compress_graph / fix_exts with censoring (evaluated executably there); max_path_beam is not modelled"],
+        "theorems": ["Graph.C03_edges_complete", "Graph.C03_exts_resolve_from_reads", "Graph.C03_observed_adjacency_recorded", "Compress.ext_target_port", "Compress.findLink_complete", "Graph.C03_ginv_of_compress", "Graph.C03_edges_symmetric_from_reads", "Graph.C03_edges_symmetric", "Graph.C03_ginv_decidable", "Graph.C03_prune_exact", "Graph.C03_valid_exts_exact", "Graph.C03_edges_justified", "Graph.C03_walk_sequence", "Graph.C03_maxPath_walk", "Graph.C03_maxPath_sequence", "Graph.edge_overlap", "Graph.findLink_sound", "Graph.searchKmer_sound", "Graph.searchKmer_complete", "Graph.findLink_exts_irrelevant"],
+        "partial": ["adjacency = (K+1)-mers between retained k-mers is proved for the graph compress_kmers builds from reads (C03_edges_complete, C03_exts_resolve_from_reads, C03_observed_adjacency_recorded; palindromic terminal k-mers excluded in the converse); GInv and edge completeness are not yet proved for graphs after compress_graph / fix_exts with censoring (evaluated executably there); max_path_beam is not modelled"],
         "n_quick": 3000, "n_thorough": 200000,
         "nontrivial": lambda toks, impl: impl != "panic" and (toks[1] != "graph" or toks[4].count(",") >= 1), "tags": _c03_tags,
         "rule": "requests: `graph K stranded nodes probes valid scores walk` on graphs produced by the real pipeline (filter -> prune -> compress -> "
@@ -584,8 +584,8 @@ PROPS = {
     },
     "C04": {
         "lean_modules": ["Dbg.Props.C04"],
-        "theorems": ["Pipeline.C04_link_pieces", "Pipeline.C04_link_shard", "Pipeline.C04_link_recompress"],
-        "partial": ["C04_sharded_eq_direct_full: stated, not proved; links (ii) bucket purity, (iv) characterisation of re-compression and (v) closure of components are missing (see Props/C04.lean); decided by evaluating partition/payload/adjacency equality on the two real pipelines"],
+        "theorems": ["Pipeline.C04_shard_tables", "Pipeline.C04_shard_filter", "Pipeline.shardCfg_default", "Filter.read_observations", "Filter.table_restrict", "Pipeline.C04_link_pieces", "Pipeline.C04_link_shard", "Pipeline.C04_link_recompress"],
+        "partial": ["C04_sharded_eq_direct_full: stated, not proved. Proved: the table level (C04_shard_tables / C04_shard_filter: every shard table is, row for row, the part of the one-pass table in its bucket; shards key-disjoint and covering), per-shard components (C04_link_shard) and the characterisation of re-compression on graphs satisfying GInv (C09_char). Missing: GInv of the combined multi-shard graph and the closure of components across shards; until then decided by evaluating partition/payload/adjacency equality on the two real pipelines"],
         "n_quick": 1500, "n_thorough": 60000,
         "nontrivial": _c04_nontrivial, "tags": _c04_tags, "shrink": _reads_shrink(8),
         "rule": "requests `sharded K P perm stranded thr prune reads`: both real pipelines on the same read set from the structured generator; (K,P) in "
